@@ -555,12 +555,22 @@ def oracle_system(sp, q, p):
     # ... and "on arbitrary states" includes states that were moved: evaluate everything at another point,
     # assign the position only (the momentum only), evaluate again - the values must be those of the CURRENT
     # variables (a method whose declared cache dependencies miss a variable it reads fails here: seed C05-3)
+    mv = None
     if not bad:
-        q0 = q + 0.375 * (1.0 + np.arange(n) % 2)
+        # the warm-up point is arbitrary: it may be a degenerate point of the model (singular Gram matrix,
+        # non-positive metric), where the library rightly raises - try a few offsets, else skip (no verdict)
         p0 = 0.5 * p - 0.25
-        mv = ChainState(pos=q0.copy(), mom=p0.copy(), dir=1)
-        for m in METHODS:
-            getattr(system, m)(mv)
+        for off in (0.375, -0.25, 0.5, 0.125, -0.0625):
+            q0 = q + off * (1.0 + np.arange(n) % 2)
+            cand = ChainState(pos=q0.copy(), mom=p0.copy(), dir=1)
+            try:
+                vals0 = [getattr(system, m)(cand) for m in METHODS]
+                if all(np.all(np.isfinite(np.asarray(x, dtype=float))) for x in vals0):
+                    mv = cand
+                    break
+            except Exception:  # noqa: BLE001, S112
+                continue
+    if mv is not None:
         for what, qq, pp in (("pos", q, p0), ("mom", q, p)):
             if what == "pos":
                 mv.pos = q.copy()
